@@ -235,7 +235,7 @@ def diff_loc(dfs, new, window=None):
         mx = max(df.index.max() for df in dfs)
         mn = mx - pd.Timedelta(window) + pd.Timedelta('1ns')
         while pd.Timestamp(dfs[0].index.min()) < mn:
-            o = dfs[0].loc[:mn]
+            o = dfs[0].loc[:mx - pd.Timedelta(window)]
             if len(old) > 0:
                 old.append(o)
             else:
